@@ -1084,8 +1084,17 @@ def pop_thread_bindings() -> None:
             "cannot pop thread-local bindings without prior push"
         ) from e
 
+    # Every Var of the frame is popped even if popping one of them fails (a Var which
+    # was re-defined as non-dynamic inside the binding form); the failure is reported
+    # once the others have been restored
+    failure: Exception | None = None
     for var in bindings:
-        var.pop_bindings()
+        try:
+            var.pop_bindings()
+        except Exception as e:  # pylint: disable=broad-except
+            failure = failure or e
+    if failure is not None:
+        raise failure
 
 
 ###################
